@@ -114,7 +114,8 @@ ZeroRules(S) ==
   SFail(~(Clip(S.nonzero, S.datastart, S.size) \subseteq Clip(S.bbm, S.datastart, S.size)), "C12:free-block-not-zero")
 
 IdleRules(S) ==
-  IF ~S.idle THEN <<>>
+  (* after a crash a half-freed object may remain until its number is reused or it is touched *)
+  IF ~S.idle \/ S.who # "run" THEN <<>>
   ELSE SFail(\E k \in 1..Len(S.inodes) : Shrinking(S.inodes[k]), "C05:half-freed-object-when-idle")
 
 ZeroIno == [kind |-> 0, nlink |-> 0, gen |-> 0, size |-> 0, ssz |-> 0, blks |-> <<0, 0, 0, 0, 0, 0, 0, 0, 0, 0>>]
